@@ -1,24 +1,5 @@
 #!/usr/bin/env bash
-# Runs the repository's pinned baseline with the verif-hooks feature OFF and
-# compares with /root/.vp/BASELINE.json (stable_pass must all pass).
-set -u
-export CARGO_NET_OFFLINE=true
-cd /repo
-cargo nextest run --workspace --no-fail-fast --tool-config-file pb:/w/lib/nextest.toml --profile pb --test-threads 8 --offline >/tmp/verif_baseline.log 2>&1
-J=/repo/target/nextest/pb/junit.xml
-python3 - "$J" <<'P'
-import json,sys,xml.etree.ElementTree as ET
-b=json.load(open('/root/.vp/BASELINE.json'))
-root=ET.parse(sys.argv[1]).getroot()
-passed=set();failed=set()
-for tc in root.iter('testcase'):
-    tid=(tc.get('classname') or '')+'::'+(tc.get('name') or '')
-    if tc.find('failure') is not None or tc.find('error') is not None: failed.add(tid)
-    elif tc.find('skipped') is not None: pass
-    else: passed.add(tid)
-passed-=failed
-missing=[t for t in b['stable_pass'] if t not in passed]
-print(f"passed={len(passed)} failed={len(failed)} stable_pass={len(b['stable_pass'])} stable_missing={len(missing)}")
-for m in missing: print("MISSING", m)
-sys.exit(1 if missing else 0)
-P
+# Runs the repository's pinned baseline with the verif-hooks feature OFF (the default feature set)
+# and compares with /root/.vp/BASELINE.json: every stable_pass test must pass. Stable tests that
+# fail in the parallel run are retried alone (several are timing-sensitive under machine load).
+exec "$(dirname "$(readlink -f "$0")")/run_suite.sh" /repo
